@@ -51,6 +51,7 @@ func (p *Prog) factOfExpr(e *Expr, pol bool, g Guard) Fact {
 			if r.Op == "const" && (r.Name == "true" || r.Name == "false") && (op == "==" || op == "!=") {
 				return p.factOfExpr(l, (r.Name == "true") == (op == "=="), g)
 			}
+			op, l, r = normCompare(op, l, r)
 			return Fact{Op: op, L: l, R: r, G: g}
 		}
 	}
@@ -123,3 +124,30 @@ func FindFact(fs []Fact, op, l, r string) *Fact {
 
 // Q quotes a literal for use inside the regular expressions of HasFact.
 func Q(s string) string { return regexp.QuoteMeta(s) }
+
+// normCompare folds equivalent spellings of a comparison into one:
+// s == "" and s != "" become len(s) == 0 and len(s) > 0; for a length (never
+// negative) != 0, >= 1 become > 0 and < 1, <= 0 become == 0.
+func normCompare(op string, l, r *Expr) (string, *Expr, *Expr) {
+	if r.Op == "const" && r.Name == `""` && (op == "==" || op == "!=") {
+		l = &Expr{Op: "call", Name: "len", Args: []*Expr{l}}
+		r = &Expr{Op: "const", Name: "0"}
+		if op == "!=" {
+			op = ">"
+		}
+		return op, l, r
+	}
+	if l.Op == "call" && l.Name == "len" && r.Op == "const" {
+		switch {
+		case r.Name == "0" && op == "!=":
+			op = ">"
+		case r.Name == "0" && op == "<=":
+			op = "=="
+		case r.Name == "1" && op == ">=":
+			op, r = ">", &Expr{Op: "const", Name: "0"}
+		case r.Name == "1" && op == "<":
+			op, r = "==", &Expr{Op: "const", Name: "0"}
+		}
+	}
+	return op, l, r
+}
